@@ -3,27 +3,36 @@ from contracts import sftp_file
 
 ID = "C29"
 F = "paramiko.sftp_file.SFTPFile."
-TARGETS = [F + "_write", F + "_close", "paramiko.sftp_client.SFTPClient._transfer_with_callback"]
-REPLAY = {"*": "c29.replay_transfers"}
+TARGETS = [F + "_write", F + "_close", "paramiko.sftp_client.SFTPClient._transfer_with_callback",
+           F + "_async_response::part[status]", (F + "_check_exception", "saved-exception", {}),
+           "paramiko.sftp_client.SFTPClient._read_response"]
+REPLAY = {"*": "c29.replay_transfers", "registered_under_their_file": "c29.pipelined_reject_with_request_between",
+          "saved": "c29.pipelined_reject_with_request_between"}
 
 
 def setup(E):
     sftp_file.declare(E)
+    sftp_file.declare_status(E)
+    sftp_file.declare_dispatch(E)
     sftp_file.declare_transfer(E)
 
 
 CLAIMED = True
-LEVEL_TEXT = ("Proof on the real AST with a ghost count of write requests whose status has not been read: SFTPFile._write keeps "
-              "the queue of outstanding requests equal to that count, issues one request of at most 32768 bytes and, when "
-              "not pipelined, reads every status before returning (a refusal is raised by the status conversion); "
-              "SFTPFile._close returns normally (outside garbage collection) only after the status of every write still in "
-              "flight has been read, including writes issued by the final flush - so a rejected pipelined write surfaces as "
-              "an exception no later than close(); SFTPClient._transfer_with_callback hands the writer exactly the bytes the "
-              "reader delivered, in order, until the reader is exhausted, and returns their number (definitional loop "
-              "invariant over ghost streams), whatever the chunking.")
-LEVEL_NOTE = ("Assumed (SFTPClient's request/response machinery is used through contracts, not verified here): "
-              "_async_request registers one request, _read_response(n) returns request n's status or raises the converted "
-              "refusal, responses arrive in request order. Not decided: putfo's size confirmation via stat, getfo with "
-              "prefetch (C28), short reads by the server inside SFTPFile._read. The defect this check found on the pinned "
-              "tree (statuses of pipelined writes never read) is repaired: fix commit d77a551.")
-TECHNIQUE = "deductive: ghost counter of outstanding statuses + definitional loop invariant over ghost streams, real AST, z3"
+LEVEL_TEXT = ("Proof on the real AST with a ghost count of write requests whose status has not been looked at: SFTPFile._write "
+              "registers each write request under its own file (not under nobody), keeps the queue of outstanding requests "
+              "equal to that count, issues one request of at most 32768 bytes and, when not pipelined, reads every status "
+              "before returning (a refusal is raised by the status conversion); SFTPClient._read_response hands every "
+              "response it takes off the wire and does not return to the owner of that very request (debt ghost settled in "
+              "every loop iteration), and returns only the awaited one; SFTPFile._async_response saves a refused status; "
+              "_check_exception raises what was saved; SFTPFile._close returns normally (outside garbage collection) only "
+              "after the status of every write still in flight has been read or found already dispatched, including writes "
+              "issued by the final flush, and after raising a saved refusal - so a rejected pipelined write surfaces as an "
+              "exception no later than close(), also when another request took its status off the wire; "
+              "SFTPClient._transfer_with_callback hands the writer exactly the bytes the reader delivered, in order, until "
+              "the reader is exhausted, and returns their number (definitional loop invariant over ghost streams).")
+LEVEL_NOTE = ("Assumed: the server answers every request once; _async_request registers the request under the object given "
+              "(its body is not a target). Not decided: putfo's size confirmation via stat, getfo with prefetch (C28), short "
+              "reads by the server inside SFTPFile._read. Defects this check found on the pinned tree are repaired: statuses "
+              "of pipelined writes never read (fix d77a551); that repair made close() wait forever when another request had "
+              "consumed the statuses, and such statuses were dropped (fix 3318fcf).")
+TECHNIQUE = "deductive: ghost counters (outstanding statuses, delivery debt) + definitional loop invariant over ghost streams, real AST, z3"
